@@ -1320,6 +1320,134 @@ fn h2_body(c: &H2Case, _ch: &Chooser) -> Outcome {
 
 // ---------------------------------------------------------------------------------------------
 
+// ---------------------------------------------------------------------------------------------
+// section 5: a status sent by a NON-tonic HTTP/2 server over the real transport
+// ---------------------------------------------------------------------------------------------
+
+#[derive(Clone, Debug)]
+struct ForeignCase {
+    /// 0: headers + trailers; 1: headers with content-length: 0 + trailers; 2: headers + one message + trailers
+    layout: u8,
+    status: (i32, &'static str, Vec<u8>),
+    streaming_caller: bool,
+    chop: usize,
+}
+
+fn foreign_body(c: &ForeignCase, _ch: &Chooser) -> Outcome {
+    use crate::env::vnet::{self, ConnectMode};
+    use crate::fixtures::echo::echo_client::EchoClient;
+    let rt = vnet::runtime(41);
+    let c2 = c.clone();
+    let (msgs, outcome): (usize, Result<Option<Status>, String>) = rt.block_on(async move {
+        let c = c2;
+        let (st, mut rx) = vnet::connector_state(ConnectMode::Succeed, false, c.chop);
+        let spec = c.status.clone();
+        let layout = c.layout;
+        tokio::spawn(async move {
+            while let Some(io) = rx.recv().await {
+                let spec = spec.clone();
+                tokio::spawn(async move {
+                    let svc = hyper::service::service_fn(move |req: http::Request<hyper::body::Incoming>| {
+                        let spec = spec.clone();
+                        async move {
+                            use http_body_util::BodyExt;
+                            let _ = req.into_body().collect().await;
+                            let mut t = HeaderMap::new();
+                            t.insert("grpc-status", HeaderValue::from_str(&spec.0.to_string()).unwrap());
+                            if !spec.1.is_empty() {
+                                t.insert("grpc-message", HeaderValue::from_str(&pct::encode_minimal(spec.1)).unwrap());
+                            }
+                            if !spec.2.is_empty() {
+                                t.insert("grpc-status-details-bin", HeaderValue::from_str(&b64::encode(&spec.2, false)).unwrap());
+                            }
+                            let mut frames: Vec<Result<http_body::Frame<Bytes>, std::convert::Infallible>> = vec![];
+                            if layout == 2 {
+                                frames.push(Ok(http_body::Frame::data(Bytes::from(crate::oracle::wire::encode_frame(0, &[9])))));
+                            }
+                            frames.push(Ok(http_body::Frame::trailers(t)));
+                            let body = http_body_util::StreamBody::new(tokio_stream::iter(frames));
+                            let mut b = http::Response::builder().status(200).header("content-type", "application/grpc");
+                            if layout == 1 {
+                                b = b.header("content-length", "0");
+                            }
+                            Ok::<_, std::convert::Infallible>(b.body(body).unwrap())
+                        }
+                    });
+                    let _ = hyper::server::conn::http2::Builder::new(hyper_util::rt::TokioExecutor::new()).serve_connection(hyper_util::rt::TokioIo::new(io), svc).await;
+                });
+            }
+        });
+        let horizon = std::time::Duration::from_secs(3600);
+        let chn = match vnet::within(horizon, tonic::transport::Endpoint::from_static("http://c04.test:1").connect_with_connector(vnet::connector(st))).await {
+            Some(Ok(c)) => c,
+            other => return (0, Err(format!("connect: {:?}", other.map(|r| r.map(|_| ()).map_err(|e| e.to_string()))))),
+        };
+        let mut client = EchoClient::new(chn);
+        if c.streaming_caller {
+            match vnet::within(horizon, client.server_stream(tonic::Request::new(vec![1]))).await {
+                None => (0, Err("the call hung".into())),
+                Some(Err(e)) => (0, Ok(Some(e))),
+                Some(Ok(resp)) => {
+                    let mut s = resp.into_inner();
+                    let mut n = 0;
+                    loop {
+                        match vnet::within(horizon, s.message()).await {
+                            None => return (n, Err("the response stream hung".into())),
+                            Some(Ok(Some(_))) => n += 1,
+                            Some(Ok(None)) => return (n, Ok(None)),
+                            Some(Err(e)) => return (n, Ok(Some(e))),
+                        }
+                    }
+                }
+            }
+        } else {
+            match vnet::within(horizon, client.unary(tonic::Request::new(vec![1]))).await {
+                None => (0, Err("the call hung".into())),
+                Some(Err(e)) => (0, Ok(Some(e))),
+                Some(Ok(_)) => (1, Ok(None)),
+            }
+        }
+    });
+    drop(rt);
+    let mut o = Outcome::new(format!("msgs={msgs} outcome={:?}", outcome.as_ref().map(|s| s.as_ref().map(fmt_status))));
+    o.nontrivial = c.status.0 != 0;
+    let (code, msg, details) = &c.status;
+    match outcome {
+        Err(e) => o.violate(if e.contains("hung") { "foreign-hang" } else { "foreign-transport" }, e),
+        Ok(None) => {
+            if *code != 0 {
+                o.violate("foreign-status-lost", format!("the peer ended the call with {} {msg:?} (layout {}) but the caller saw success with {msgs} message(s)", code_name(*code), c.layout));
+            }
+        }
+        Ok(Some(s)) => {
+            if *code == 0 {
+                // unary callers legitimately fail an OK call that carried no message (layouts 0/1)
+                if c.layout == 2 {
+                    o.violate("foreign-ok-as-error", format!("an OK call with a message came out as {}", fmt_status(&s)));
+                }
+            } else if code_num(s.code()) != *code || s.message() != *msg || s.details() != &details[..] {
+                o.violate("foreign-status-changed", format!("the peer sent {} {msg:?} details {} (layout {}), the caller got {}", code_name(*code), hex(details), c.layout, fmt_status(&s)));
+            }
+        }
+    }
+    o
+}
+
+fn foreign_cases() -> Vec<ForeignCase> {
+    let statuses: Vec<(i32, &'static str, Vec<u8>)> = vec![(5, "not found: x", vec![8, 8, 18, 3, 97, 255, 0]), (16, "", vec![]), (7, "100% no", vec![0xff]), (0, "", vec![])];
+    let mut out = vec![];
+    for layout in 0..3u8 {
+        for status in &statuses {
+            for streaming_caller in [false, true] {
+                for chop in [0usize, 2] {
+                    out.push(ForeignCase { layout, status: status.clone(), streaming_caller, chop });
+                }
+            }
+        }
+    }
+    out
+}
+
 pub fn property(tier: Tier) -> Property {
     let cfg = Config { max_bound: 0, panic_key: "panic", hang_secs: 60, ..Default::default() };
 
@@ -1364,6 +1492,15 @@ pub fn property(tier: Tier) -> Property {
     )
     .mins(2500, 8, 1400);
 
+    let foreign = Section::new(
+        "foreign-server",
+        Config { hang_secs: 60, ..Default::default() },
+        "cases: a bare hyper HTTP/2 server (not tonic) answers a call made through the real Channel (in-memory pipes, virtual time, 2 fragmentation patterns) with response headers and then a status in trailers, in three layouts — headers + trailers; headers carrying content-length: 0 + trailers; headers + one message + trailers — x status {NOT_FOUND with message and binary details, UNAUTHENTICATED bare, PERMISSION_DENIED with '%' and details, OK} x {unary caller, server-streaming caller}. Oracle: a non-OK status reaches the caller as the call's (or the stream's) error with equal code, message and details, whatever preceded it; an OK call with a message succeeds. Non-trivial = non-OK status.",
+        foreign_cases(),
+        |c: &ForeignCase| format!("{c:?}"),
+        foreign_body,
+    )
+    .mins(40, 3, 30);
     let h2 = Section::new(
         "h2-table",
         cfg,
@@ -1385,7 +1522,7 @@ pub fn property(tier: Tier) -> Property {
             "h2 errors are constructed from a Reason (library/reset/go-away origins are indistinguishable to code_from_h2); hyper::Error wrappers cannot be constructed outside hyper and are not covered".into(),
             "grpc-status values with leading zeros (e.g. 016) may be read numerically or as UNKNOWN".into(),
         ],
-        sections: vec![roundtrip, totality, http, h2],
+        sections: vec![roundtrip, totality, http, h2, foreign],
         extra: Default::default(),
     }
 }
